@@ -129,6 +129,9 @@ def run(ctx, rep):
         if i.op == 'load' and gf_.expr(['i', i.id]).startswith('buf[0]'):
             getmap.setdefault(0, 0)
     rep.check(putmap == {0: 0, 1: 8, 2: 16, 3: 24} and getmap == putmap, 'R-C10-3', 'sputble32/sgetble32 byte order', pf.file, 'put %s get %s' % (putmap, getmap), function='sputble32', construct='byte order')
+    # which disks and blocks get saved is decided through searches in the extent trees (fs_is_empty, fs_par2block...)
+    from .. import comparators
+    comparators.tree_rules(P, rep, 'R-C10-5')
     rep.extra['writer_sequences'] = sum(len(v) for v in wg.values())
     rep.extra['reader_sequences'] = sum(len(v) for v in rg.values())
     rep.extra['member_pairs'] = npairs
